@@ -133,10 +133,32 @@ def run_cell(cell, seed):
     # inverse
     if pyr is not None:
         shapes = [list(pyr[0].shape)] + [list(h.shape) for h in pyr[1]]
-        for kind in ['roundtrip', 'randn', 'impulse']:
+        for kind in ['roundtrip', 'randn', 'impulse', 'none-level']:
             case = {'cell': cell, 'dir': 'inverse', 'form': '4-tuple', 'input': kind}
             if kind == 'roundtrip':
                 yl, yh = pyr
+            elif kind == 'none-level':
+                # a highpass level given as None (documented) with different row and column filters
+                yl = util.make_input('randn', shapes[0], seed + 21)
+                yh = [util.make_input('randn', s_, seed + 22 + j) for j, s_ in enumerate(shapes[1:])]
+                nm = rnd.randrange(J)
+                yh_n = [None if j == nm else h for j, h in enumerate(yh)]
+                case['none_level'] = nm
+                try:
+                    refn = refs.waverec2(util.np64(yl), [None if h is None else util.np64(h) for h in yh_n], wc, wr, mode)
+                except Exception:
+                    refn = None
+                okn, rn = util.call_lib(inv, (yl, yh_n))
+                if refn is None:
+                    out.append(res(core.SKIPPED, case, 'M-REF', 'pywt rejects this pyramid with a None level') if not okn else
+                               res(INCONCLUSIVE, case, 'M-REF', 'pywt rejects the pyramid, the library returned'))
+                elif not okn:
+                    out.append(res(VIOLATED, case, 'M-REF', 'inverse raised %r where pywt returns' % (rn,)))
+                else:
+                    okc, d, ratio = util.compare('inverse with a None level', rn, refn,
+                                                 1e-11 * Gs * max(float(yl.abs().max()), 1.0) * 8)
+                    out.append(res(HELD, case, 'M-REF', ratio=ratio) if okc else res(VIOLATED, case, 'M-REF', d, ratio=ratio))
+                continue
             elif kind == 'randn':
                 yl = util.make_input('randn', shapes[0], seed + 1)
                 yh = [util.make_input('randn', s, seed + 2 + j) for j, s in enumerate(shapes[1:])]
